@@ -63,6 +63,12 @@ pub fn snippets(tier: Tier) -> Vec<Snip> {
     for (name, code) in crate::progs::extra_programs(tier) {
         v.push(Snip { name, code, plain: None, sierra: None });
     }
+    // hint-targeted programs (u256/u512 division, square roots, modular inverse, conversions, dict squash, EC ...):
+    // written for C03, executed by every execution check - on the FULL boundary domains even in quick, since
+    // their honest hints have their own boundary cases (e.g. 2*root - remainder == 2^128 in the u256 square root)
+    for (n, c) in crate::c03::EXTRA {
+        v.push(Snip { name: format!("hintx:{n}"), code: c.to_string(), plain: None, sierra: None });
+    }
     // whole files: examples/ and the regression programs of tests/bug_samples (test attributes removed so
     // the functions are ordinary functions, run with their scalar arguments or none)
     for dir in ["/repo/examples", "/repo/tests/bug_samples"] {
